@@ -654,6 +654,33 @@ func sharedSessionOrigin(c *Ctx, fn *ssa.Function, v ssa.Value, d int, seen map[
 	}
 	seen[v] = true
 	switch x := v.(type) {
+	case *ssa.Call:
+		// a library helper that picks the session (the client's, or a fallback): what it returns
+		sc := ir.StaticCallee(x)
+		if sc == nil || !c.P.IsLib(sc) || sc.Blocks == nil || sc.Signature.Results().Len() != 1 {
+			return ""
+		}
+		for _, b := range sc.Blocks {
+			if ret, ok := b.Instrs[len(b.Instrs)-1].(*ssa.Return); ok {
+				for _, res := range ir.Results(ret) {
+					if p, isParam := res.(*ssa.Parameter); isParam {
+						_ = p
+						continue // handed back: judged at the argument below
+					}
+					if bad := sharedSessionOrigin(c, sc, res, d+1, seen); bad != "" {
+						return bad + " (returned by " + fname(sc) + ")"
+					}
+				}
+			}
+		}
+		for _, a := range x.Call.Args {
+			if types.Identical(a.Type(), v.Type()) {
+				if bad := sharedSessionOrigin(c, fn, a, d+1, seen); bad != "" {
+					return bad
+				}
+			}
+		}
+		return ""
 	case *ssa.MakeInterface:
 		return sharedSessionOrigin(c, fn, x.X, d, seen)
 	case *ssa.ChangeInterface:
@@ -829,8 +856,17 @@ func c13CtxFuncApplied(c *Ctx, reach map[*ssa.Function]bool) {
 	for _, fn := range sortedFuncs(reach) {
 		ir.EachInstr(fn, func(_ *ssa.BasicBlock, _ int, in ssa.Instruction) {
 			call, ok := in.(ssa.CallInstruction)
-			if !ok || !c.isDispatchCall(call) {
+			if !ok {
 				return
+			}
+			what := "dispatcher"
+			if !c.isDispatchCall(call) {
+				// a registered notification handler (a function value, or the handler interface) is user code too and
+				// reads the same values
+				if !notificationHandOff(call) {
+					return
+				}
+				what = "notification handler"
 			}
 			for _, a := range call.Common().Args {
 				if ir.TypeStr(a.Type()) != "context.Context" {
@@ -838,7 +874,7 @@ func c13CtxFuncApplied(c *Ctx, reach map[*ssa.Function]bool) {
 				}
 				n++
 				ok, why := enriched(fn, a, 0, map[ctxKey]bool{})
-				c.R.Check(ok, "R-ctxfunc-applied", sprintf("context handed to the dispatcher by %s", fname(fn)), c.Pos(call.Pos()),
+				c.R.Check(ok, "R-ctxfunc-applied", sprintf("context handed to the %s by %s", what, fname(fn)), c.Pos(call.Pos()),
 					"descends from the result of the configured HTTP context functions",
 					sprintf("%s hands the request dispatcher a context that descends from %s without passing through the configured HTTP context functions: middlewares, filters and handlers of these requests do not see the values derived from the caller's HTTP request (identity, role), so a listing is filtered for nobody in particular", fname(fn), why))
 			}
@@ -1067,4 +1103,26 @@ func (w *ctxWalker) descends(fn *ssa.Function, v ssa.Value, d int, seen map[ctxK
 		return true, ""
 	}
 	return false, "an expression in " + fname(fn)
+}
+
+// notificationHandOff: the call hands a decoded notification and a context to code the library does not know
+// statically — a registered handler (function value) or a method of a library-declared interface.
+func notificationHandOff(call ssa.CallInstruction) bool {
+	cc := call.Common()
+	hasN, hasCtx := false, false
+	for _, a := range cc.Args {
+		switch ir.TypeStr(a.Type()) {
+		case "*mcp.JSONRPCNotification":
+			hasN = true
+		case "context.Context":
+			hasCtx = true
+		}
+	}
+	if !hasN || !hasCtx {
+		return false
+	}
+	if cc.IsInvoke() {
+		return true
+	}
+	return ir.StaticCallee(call) == nil
 }
